@@ -699,7 +699,7 @@ impl World for WorldG {
                     let auth = if fault && t.auth { *rng.pick(&[AuthVar::Stranger, AuthVar::Nobody, AuthVar::Counterparty, AuthVar::Owner, AuthVar::RightOtherArgs]) } else if t.auth && rng.chance(1, 6) { AuthVar::Everyone } else { AuthVar::Right };
                     GOp::CallContract {
                         gw: g as u8,
-                        sender: if rng.chance(1, 12) { 200 + rng.below(2) as u8 } else { rng.below(4) as u8 },
+                        sender: if rng.chance(1, 12) { 200 + rng.below(2) as u8 } else if rng.chance(1, 8) { 100 + rng.below(4) as u8 } else { rng.below(4) as u8 },
                         chain: StrSpec::gen(rng),
                         addr: StrSpec::gen(rng),
                         payload: PayloadSpec::gen(rng, true),
